@@ -161,6 +161,28 @@ def crlf(b):
     return bytes(out)
 
 
+def crlf_copy(b, room=16382):
+    """psf_strlcpy_crlf into a 16 KiB field, exactly: every source byte is visited (NULs included) while fewer than `room` bytes have
+    been written; the text is what precedes the first NUL"""
+    out, i = bytearray(), 0
+    while len(out) < room and i < len(b):
+        c = b[i]
+        if i + 1 < len(b) and ((c == 13 and b[i + 1] == 10) or (c == 10 and b[i + 1] == 13)):
+            out += b"\r\n"
+            i += 2
+        elif c in (13, 10):
+            out += b"\r\n"
+            i += 1
+        else:
+            out.append(c)
+            i += 1
+    return cstr(bytes(out))
+
+
+def strlcat(d, s, n=16384):
+    return d + s[:max(0, n - len(d) - 1)]
+
+
 def cstr(b):
     k = b.find(b"\0")
     return b if k < 0 else b[:k]
@@ -175,18 +197,18 @@ def history_line(sr, ch, sub, package):
 def norm_history(h, sr, ch, sub, package):
     """coding history after SFC_SET_BROADCAST_INFO in SFM_WRITE and a re-open: CR/LF line ends, a line end added when missing,
     the library's own line appended, even length"""
-    t = crlf(cstr(h))
+    t = crlf_copy(h)
     if t and not t.endswith(b"\n"):
-        t += b"\r\n"
-    t += history_line(sr, ch, sub, package)
+        t = strlcat(t, b"\r\n")
+    t = strlcat(t, history_line(sr, ch, sub, package))
     return t + (b"\0" if len(t) & 1 else b"")
 
 
 def norm_tag_text(t):
     """cart tag text: CR/LF line ends, a line end added when missing, then NUL padding to an even length (1 or 2 NULs)"""
-    x = crlf(cstr(t))
+    x = crlf_copy(t)
     if x and not x.endswith(b"\n"):
-        x += b"\r\n"
+        x = strlcat(x, b"\r\n")
     return x
 
 
@@ -345,19 +367,12 @@ def expected(s, package):
         if kind[0] != "str":
             continue
         ty = kind[1]
-        if n > 32:
-            classes.add("str-slots")
         if ty not in STR_TYPES:
-            if c in STR_SUPPORT and ty == 0:
-                classes.add("str-slots")
             continue
         if not ok or val is None:
             continue
         if ty == 3:
-            full = val if pkgname in val else (package.encode() if not val else val + b" (" + package.encode() + b")")
-            if len(full) > 127:
-                classes.add("software-127")
-            val = full
+            val = val if pkgname in val else (package.encode() if not val else val + b" (" + package.encode() + b")")
         if late and any(t == ty and not l for (t, v, l) in slots):
             classes.add("late-replace")
         slots = [(t, v, l) for (t, v, l) in slots if t != ty] + [(ty, val, late)]
@@ -376,8 +391,6 @@ def expected(s, package):
                 classes.add("aiff-8190")
             if any(ty in (2, 3) and not printable(v) for ty, v in stored):
                 classes.add("aiff-sanitize")
-            if any(ty == 3 for ty, v in stored):
-                classes.add("aiff-appl-stale")
         if c == "caf" and len(caf_fits([(ty, v) for (ty, v, l) in slots if not l])) + len(caf_fits([(ty, v) for (ty, v, l) in slots if l])) != len(slots):
             classes.add("caf-16k")
     total = sum(len(v) + 10 for (ty, v, l) in slots)
@@ -386,15 +399,10 @@ def expected(s, package):
         acc = [(late, val) for (k, late, ok, val, raw, n) in s.calls if k == kind and ok]
         if not acc or c not in sup:
             continue
-        att = [late for (k, late, ok, val, raw, n) in s.calls if k == kind]
-        if len(att) > 1 and att[-1] and not att[0]:
-            classes.add("late-grow")        # the block is set again after the audio (whether or not the library accepts the call)
         val = acc[-1][1]
         if kind == "bext":
             f = unpack_fields(BEXT_FIELDS, val)
             hist = norm_history(f["_var"], s.sr, s.ch, s.sub, package)
-            if len(hist) > 9638:
-                classes.add("bext-10k")
             f.update({"version": 2, "reserved": b"", "_pad": b"", "coding_history_size": len(hist)})
             exp["bext"] = bext_bytes({k: v for k, v in f.items() if k != "_var"}, hist)
             total += 610 + len(hist)
@@ -402,16 +410,12 @@ def expected(s, package):
             f = unpack_fields(CART_FIELDS, val)
             t = norm_tag_text(f["_var"])
             size = len(t) + (1 if len(t) & 1 else 2)
-            if size >= 16384:
-                classes.add("cart-16k")
             f.update({"reserved": b"", "tag_text_size": size})
             exp["cart"] = cart_bytes({k: v for k, v in f.items() if k != "_var"}, t + bytes(size - len(t)))
             total += 2056 + size
     # cues
     acc = [val for (k, late, ok, val, raw, n) in s.calls if k == "cues" and ok]
     if acc and c in CUE_SUPPORT:
-        if len(acc) > 1:
-            classes.add("cue-second-set")
         cues = acc[-1]
         if c == "aiff":
             exp["cues"] = [(q[0] & 0xffff, 0, 0x61746164, 0, 0, q[5], q[6]) for q in cues]
@@ -419,7 +423,7 @@ def expected(s, package):
             exp["cues"] = list(cues)
             if any(q[6] for q in cues):
                 classes.add("cue-names")
-        total += 12 + 24 * len(cues)
+        total += 12 + (sum(8 + len(q[6]) for q in cues) if c == "aiff" else 24 * len(cues))
     # instrument
     acc = [val for (k, late, ok, val, raw, n) in s.calls if k == "inst" and ok]
     if acc and c in INST_SUPPORT:
@@ -437,8 +441,6 @@ def expected(s, package):
     acc = [val for (k, late, ok, val, raw, n) in s.calls if k == "chmap" and ok]
     if acc and c in CHMAP_SUPPORT:
         exp["chmap"] = acc[-1]
-    if c == "rifx" and ("cues" in exp or "cart" in exp):
-        classes.add("rifx-endian")
     if total >= 49000:
         classes.add("header-cache")
     if c == "aiff" and "late-replace" in classes:
@@ -478,7 +480,7 @@ def judge(s, package):
         if late or ok:
             continue
         if kind[0] == "str":
-            if s.cont in STR_SUPPORT and kind[1] in STR_TYPES and val is not None and (val or kind[1] == 3) and nth <= 32 and "str-slots" not in classes:
+            if s.cont in STR_SUPPORT and kind[1] in STR_TYPES and val is not None and (val or kind[1] == 3) and nth <= 32:
                 F.append(("refused-valid", "sf_set_string (%s, %d bytes) before the audio answered '%s'" % (STR_NAMES[kind[1]], len(val), raw)))
         elif kind in ("bext", "cart", "cues", "inst"):
             sup = {"bext": BEXT_SUPPORT, "cart": CART_SUPPORT, "cues": CUE_SUPPORT, "inst": INST_SUPPORT}[kind]
